@@ -151,7 +151,7 @@ def conforms(real, exp: Exp, ctx: str):
         rv = d[t - lo] if lo <= t <= hi else np.full(exp.nv, np.nan)
         mv = exp.get(t)
         if exp.tol:
-            ok = np.allclose(rv, mv, rtol=exp.tol, atol=exp.tol * 1e-3, equal_nan=True)
+            ok = np.allclose(rv, mv, rtol=exp.tol, atol=exp.tol * 1e-3 + exp.tol * getattr(exp, "scale", 0.0), equal_nan=True)
         else:
             ok = np.array_equal(rv, mv, equal_nan=True)
         if not ok:
@@ -1236,11 +1236,13 @@ class SeriesWorld(World):
         fn = a["fn"]
         m = o.model
         want = np.asarray(getattr(np, fn)(m.own(), axis=0), dtype=float).reshape(-1)
+        # a reduction over the periods: absolute accuracy is bounded by the largest operand, not by the result
+        atol = 1e-12 + 1e-9 * (sm.reduction_scale(m, fn) / max(m.nv, 1)) * max(m.n, 1)
 
         def thunk():
             got = getattr(ir, fn)(o.real, axis=0, unpack_singleton=False)
             got = np.asarray(got, dtype=float).reshape(-1)
-            if got.shape != want.shape or not np.allclose(got, want, rtol=1e-9, atol=1e-12, equal_nan=True):
+            if got.shape != want.shape or not np.allclose(got, want, rtol=1e-9, atol=atol, equal_nan=True):
                 raise Violation("refine", "stat0." + fn, "", "", f"axis=0 statistic {got.tolist()} vs {want.tolist()}")
         return self._exec(step, "stat0." + fn, [("recv", h)], thunk)
 
